@@ -6,7 +6,7 @@ UNIT = dict(
     prelude=["actionloop_env.rs"],
     spec=["spec.rs"],
     rules=dict(
-        env_methods=["call", "spawn", "join_all", "stop_with_signal", "delete", "vx_awaited"],
+        env_methods=["call", "spawn", "join_all", "stop_with_signal", "delete", "delete_now", "stop", "signal", "vx_awaited"],
         env_paths=["throttle_collect"],
         question=True,
         subst=[("HashMap::<Id, Job>::new()", "JobMap::new()"), ("Arc<Config>", "&ArcConfig"), ("mpsc::Sender<RuntimeError>", "ErrTx"), ("priority::Receiver<Event, Priority>", "EvRx")],
